@@ -27,7 +27,8 @@ for i in range(S.budget):
     secs = pg.gen_sections(rng, with_entrance=True)
     sp = pc.random_slurry_params(rng)
     try:
-        pl = pc.make_pipeline(rng, secs, sp)
+        rec = {}
+        pl = pc.make_pipeline(rng, secs, sp, record=rec)
         Q = PipeObj.Pipe(diameter=secs[-1][1]).flow(rng.uniform(0.5, 8.0))
         mode = 'positive'
         if rng.random() < 0.12:
@@ -41,7 +42,7 @@ for i in range(S.budget):
     except Exception as e:
         S.count(None, 'exception:' + type(e).__name__)
         continue
-    where = {'sections': secs, 'slurry': sp, 'Q': q_in}
+    where = {'sections': secs, 'slurry': sp, 'Q': q_in, **rec}
     n = len(pl.pipesections)
     if not (len(loc) == len(head) == len(elev) == n + 1):
         S.violation('C14:shape', f'{n} sections but {len(loc)}/{len(head)}/{len(elev)} grade-line points', input=where)
